@@ -432,7 +432,7 @@ def f_contig_tiny(ids, rng, sample=1.0, ifaces=("rec",), sizes=((2, 3), (3, 2), 
                 col = 50
                 for r in rects[:14]:
                     area = r[2] * r[3]
-                    for ln in rng.sample([0, 1, max(area - 1, 0), area, area + 3, -1], 2):
+                    for ln in rng.sample([0, 1, max(area - 1, 0), area, area + 3, -1, rng.randrange(0, area + 1), rng.randrange(0, area + 1)], 2):
                         calls.append({"name": "fill_contiguous", "rect": r, "colors": {"start": col, "len": ln}})
                         col += 64
                 out.append(scn(ids, c, calls, tag="contig"))
@@ -1151,4 +1151,51 @@ def f_dcs_over_transports(ids, rng, n=200):
                 ln = rng.choice([0, 1, 2, 3, 4, 5, 6, 7, 8, 9, 12, 15, 16])
                 calls.append({"name": "raw", "op": rng.choice([0x51, 0x53, 0xB1, 0xC5, 0xE0, 0xE1, 0xF0]), "params": [(7 * ln + 13 * i + 1) % 256 for i in range(ln)]})
         out.append(scn(ids, c, calls, tag="dcs-transport"))
+    return out
+
+
+def f_fault_retry(ids, rng, n, flavour="oob", ifaces=("spi", "rec", "p8")):
+    """a call fails at some low-level operation, the application retries the very same call, then goes on drawing:
+    whatever the failed attempt left behind (cached windows, shadow registers, staged bytes) must not make the retry or
+    the later drawing go wrong.  flavour "oob": out-of-range drawing afterwards (C02); "contig": contiguous fills (C04)"""
+    out = []
+    for _ in range(n):
+        W, H = rng.choice([(4, 3), (3, 3), (2, 3), (3, 2)])
+        w = rng.randrange(1, W + 1); h = rng.randrange(1, H + 1)
+        ox = rng.randrange(0, W - w + 1); oy = rng.randrange(0, H - h + 1)
+        rot, mir = rng.choice(ORIENTS)
+        iface = rng.choice(ifaces)
+        c = cfg("tiny565_%dx%d" % (W, H), w, h, ox, oy, rot, mir, iface=iface, buf=rng.choice([2, 3, 4, 64]))
+        lw, lh = lsize(w, h, rot)
+        calls = [INIT, {"name": "clear", "c": 0x0A0A}]
+        if rng.random() < 0.5:
+            r2, m2 = rng.choice(ORIENTS)
+            op = {"name": "set_orientation", "rot": r2, "mir": m2}
+            lw, lh = lsize(w, h, r2)
+        elif flavour == "contig":
+            op = {"name": "fill_contiguous", "rect": [rng.randrange(-1, lw), rng.randrange(-1, lh), rng.randrange(1, lw + 2), rng.randrange(1, lh + 2)],
+                  "colors": {"start": 100, "len": -1}}
+        else:
+            op = {"name": "draw_iter", "px": [[rng.randrange(-1, lw + 1), rng.randrange(-1, lh + 1), 40 + i] for i in range(4)]}
+        calls.append(op)
+        fcall = len(calls)
+        calls.append(dict(op))                       # the retry
+        col = 200
+        for _ in range(4):
+            if flavour == "contig":
+                r = [rng.randrange(-1, lw), rng.randrange(-1, lh), rng.randrange(1, lw + 2), rng.randrange(1, lh + 2)]
+                calls.append({"name": "fill_contiguous", "rect": r, "colors": {"start": col, "len": rng.choice([-1, r[2] * r[3], rng.randrange(0, r[2] * r[3] + 1)])}})
+                col += 50
+            else:
+                k = rng.randrange(3)
+                if k == 0:
+                    calls.append({"name": "draw_iter", "px": [[rng.choice([-1, 0, lw - 1, lw, 65536]), rng.choice([-1, 0, lh - 1, lh]), col + i] for i in range(4)]})
+                elif k == 1:
+                    calls.append({"name": "fill_solid", "rect": [rng.randrange(-1, lw), rng.randrange(-1, lh), lw + 1, lh + 1], "c": col})
+                else:
+                    calls.append({"name": "clear", "c": col})
+                col += 7
+        s = scn(ids, c, calls, tag="fault-retry")
+        s["faults"] = [{"call": fcall, "k": rng.randrange(1, 14), "effect": False}]
+        out.append(s)
     return out
